@@ -185,6 +185,23 @@ def worker(job):
                     part.violation('verbose-not-refused', dict(wit0, run=r.brief()))
                 else:
                     part.count('options', '--verbose:refused')
+            if i % 9 == 0:
+                # the stdin reader takes one line of up to 1023 characters: scripts of exactly 1021..1023 characters of text
+                L = rng.choice([1021, 1022, 1023, 1023])
+                nn = rng.choice([100, 120, 140])
+                body = 'OP_2 OP_3 OP_ADD ' + 'OP_NOP ' * nn + 'OP_1'
+                text = '[' + body + ' ' * (L - 2 - len(body)) + ']'
+                wantl = expected_stdout([b'\x05', b'\x01'])
+                for tail in (b'\n', b''):
+                    r = proc.run([btcdeb], wd, stdin=text.encode() + tail, mode='pipe', timeout=30)
+                    part.evaluations += 1
+                    part.count('modes', 'pipe/long-line-%d%s' % (L, '' if tail else '-no-newline'))
+                    if r.abnormal:
+                        part.violation('abnormal-exit:' + r.crash_key('btcdeb'), dict(kind='long-stdin-line', length=L, run=r.brief()))
+                    elif r.rc != 0 or r.stdout.decode('latin1') != wantl:
+                        part.violation('long-stdin-line-differs-from-argv-result', dict(kind='long-stdin-line', length=L, newline=bool(tail), want_stdout=wantl, run=r.brief()))
+                    else:
+                        part.nontrivial.add(nt_hash('long', L, tail))
             if i % 7 == 0 and want[0] == 'ok' and not c['tx'] and script and len(script) < 300:
                 # interactive stepping must reach the same final stack
                 nsteps = len(decode_all(script)) + 2
